@@ -279,9 +279,9 @@ impl Check for C08 {
         // back to the parent - judged by C19's block scanner
         use crate::checks::c19::{NestDef, W};
         // a command inside an optional member of a group that is one branch of an alternative
-        out.push(json!({"odd": 4}));
-        // hidden commands and commands under some(..) answer for themselves
-        for k in 6..9 {
+        // commands in unusual places (flag-looking names, under last / optional / collect / some,
+        // in an optional group member, under fallback, hidden): they answer for themselves
+        for k in 0..crate::checks::c10::odd_command_cases().len() {
             out.push(json!({"odd": k}));
         }
         for cmd_wrap in [W::Bare, W::Opt, W::Many] {
